@@ -8,7 +8,7 @@ REGISTRY = {
         "level": "exploration",
         "level_text": ("seeded search over operation sequences against the real pool with invariants checked through the public "
                        "API after every operation and shrinking to a minimal sequence; sampled, not exhaustive"),
-        "level_note": "trusted: harness Feer, the invariant formulas in poolsim/engine.go; single caller only",
+        "level_note": "trusted: harness Feer, the invariant formulas in poolsim/engine.go; concurrent callers only at critical-section granularity",
         "design_ref": "DESIGN.md section 2, C08",
         "technique": "deterministic simulation: seeded operation/fault sequences with shrinking and replay (rapid), invariant oracles",
         "budget": {"quick": 40, "thorough": 1500},
@@ -20,16 +20,18 @@ REGISTRY = {
                  "HighPriority, Conflicts to lower universe members, OracleResponse ids 1-2, capacity 1-6) against the "
                  "real mempool.Pool; a run is non-trivial when at least one probe fired (failed add, capacity eviction, "
                  "removal by conflict/oracle, insolvent drop at a block, balance/policy change); distinct = distinct "
-                 "hash of the operation/result log"),
+                 "hash of the operation/result log. One run in two ends with 2-3 clients running 1-3 operations each "
+                 "(add/remove/verify) concurrently as real goroutines that are released one at a time at the pool's lock "
+                 "acquisitions (build-tag hook mempool.VerifLockYield) in plan order; the invariants are checked when they are done"),
         "probes": ["add_ok", "add_fail", "add_fail_at_capacity", "capacity_eviction", "eviction_while_resolving_conflict",
                    "removed_by_conflict_or_oracle", "stale_dropped_insolvent_or_policy", "reached_capacity",
-                   "balance_change", "policy_change"],
+                   "balance_change", "policy_change", "concurrent_phase", "concurrent_steps"],
         "components": {"real": ["pkg/core/mempool.Pool (all of Add/Remove/RemoveStale/Verify/HasConflicts/TryGetData)",
                                 "pkg/core/transaction (hash, size, attributes)"],
                        "stub": ["mempool.Feer = harness (balances, FeePerByte, height): this is the seam the pool reads"]},
         "assumptions": ["balances and policy change only at RemoveStale (as in blockchain.go's post-block refresh)",
                         "resend goroutine disabled (threshold 0); subscriptions disabled",
-                        "single caller: concurrent callers of the pool are not explored here"],
+                        "concurrent callers are interleaved at the granularity of the pool's critical sections only (a client runs alone between two lock acquisitions)"],
     },
 }
 
